@@ -140,8 +140,9 @@ def prove_helpers(col, I):
                        'ruled out')
 
 
-def path_rules(col, gcode, paths, I):
-    declare(col)
+def path_rules(col, gcode, paths, I, own=True):
+    if own:
+        declare(col)
     prove_helpers(col, I)
     seen = set()
     for p in paths:
